@@ -31,8 +31,34 @@ def run(ctx):
         if ci == 2:
             ctx.sample({"create": cfg, "history": to_lines_cfg(cfg)(hs[-1])[:25]})
         total += ctx.exec_validate(exe, hs, to_lines_cfg(cfg), "ArrayTrace.tla", "ArrayTrace.cfg", label="c19-%d" % ci, nshards=8)
+    # (3) two real threads under a deterministic scheduler: they yield after every release of the grow lock and between
+    #     calls, so index/grow calls interleave at the granularity of critical sections; every result is validated as above
+    import random
+    rng = random.Random(ctx.seed * 977 + 3)
+    progs = []
+    for cfg in [(0, 8, 16), (1, 4, 1), (17, 3, 16)]:
+        for _ in range(150 if q else 4000):
+            lines = ["Create %d %d %d" % cfg]
+            idxs = rng.sample([0, 1, 5, 15, 16, 17, 20, 31, 32, 40, 255, 256, 4096], 3)
+            for t in (1, 2):
+                for _ in range(rng.randint(1, 4)):
+                    r = rng.random()
+                    if r < 0.65:
+                        lines.append("T%d Index %d" % (t, rng.choice(idxs)))
+                    elif r < 0.85:
+                        lines.append("T%d Write %d %d" % (t, rng.choice(idxs), rng.randint(1, 2)))
+                    else:
+                        lines.append("T%d Grow %d" % (t, rng.choice([1, 17, 33, 300])))
+            lines.append("S " + " ".join(str(rng.randint(1, 2)) for _ in range(rng.randint(0, 24))))
+            lines.append("Seed %d" % rng.randint(1, 10 ** 6))
+            lines.append("Go")
+            for i in idxs:
+                lines.append("Index %d" % i)
+            progs.append(lines)
+    ctx.sample({"two_thread_program": progs[0]})
+    ctx.exec_validate(exe, progs, lambda p: p, "ArrayTrace.tla", "ArrayTrace.cfg", label="c19-mt", nshards=8)
     ctx.cov["exhaustive"] = True
     ctx.assumptions += [
-        "the concurrency clause is decided by the locking discipline: TLC shows (3 threads, all interleavings) that the discipline excludes reads of a freed bin table; every recorded call of the real code is checked to follow the discipline (hook events), independent of the schedule observed",
+        "the concurrency clause is decided by the locking discipline plus scheduled two-thread runs (interleaving at critical-section granularity): TLC shows (3 threads, all interleavings) that the discipline excludes reads of a freed bin table; every recorded call of the real code is checked to follow the discipline (hook events), independent of the schedule observed",
         "element sizes / initial sizes / auto-grow settings from a fixed list of creation profiles; indices from a boundary set over the full range",
     ]
